@@ -198,6 +198,14 @@ class Number(ExcelType):
     def is_decimal(self):
         return isinstance(self.value, float)
 
+    def __str__(self):
+        # Excel shows a whole number without a decimal point: 6/2&"" is "3".
+        value = self.value
+        if isinstance(value, float) and value.is_integer() \
+                and abs(value) < 1e15:
+            return str(int(value))
+        return str(value)
+
     def __mod__(self, other):
         return Number(self.value % Number.cast(other).value)
 
